@@ -273,13 +273,16 @@ structure ServeFacts where
   wsSendInOrder : Bool
   /-- after the reader ends (Ok or Err) the writer is told to drain and awaited before the function returns -/
   wsDrainOnExit : Bool
+  /-- an off-reader handler's response is handed to the writer with a send that WAITS for room in the outbound queue
+  (`blocking_send`), not one that gives up when the queue is full -/
+  wsOffSendWaits : Bool
   deriving DecidableEq, Repr
 
 def specServe : ServeFacts :=
   { viewNotifySilent := true, ownedNotifySilent := true, viewRejectNotifySilent := true, wsRejectNotifySilent := true
     viewHandlerCalls := 1, ownedHandlerCalls := 1, tcpEchoHelper := true, atcpEchoHelper := true
     wsStampInline := true, wsStampOff := true, wsOffRunsAlways := true, tcpFlushEach := true, atcpFlushEach := true
-    wsSendInOrder := true, wsDrainOnExit := true }
+    wsSendInOrder := true, wsDrainOnExit := true, wsOffSendWaits := true }
 
 /-- `finalMessage` with the echo / stamp facts: a writer that is not handed the echo helper's result frames the
 request query over whatever the handler chose; a missing stamp leaves the response query-less. -/
@@ -336,6 +339,11 @@ def serveSeqG (sf : ServeFacts) (c : Codes) (t : Transport) (steps : List Step) 
 /-- WebSocket teardown: what reaches the peer of the responses already queued when the reader ends. -/
 def teardownDelivered (sf : ServeFacts) (queued : List Message) : List Message :=
   if sf.wsDrainOnExit then queued else []
+
+/-- Hand-off of an off-reader response to the writer when the outbound queue is full at that moment: a waiting send
+delivers it once there is room; a non-waiting one loses it. -/
+def offReaderHandoff (sf : ServeFacts) (queueFull : Bool) (resp : Message) : Option Message :=
+  if queueFull && !sf.wsOffSendWaits then none else some resp
 
 /-- A request to a built-in handler of kind `k`, end to end. -/
 def builtinRespond (sf : ServeFacts) (c : Codes) (df : HKind → Entry → DecodeFacts) (ef : EntryFacts) (t : Transport)
